@@ -81,6 +81,11 @@ def main():
         meta["demo_without_change"] = "pass" if rc0 == 0 else "FAIL"
         rc, out = sh(["git", "apply", os.path.join(dest, "patch.diff")], cwd=wt)
         if rc != 0:
+            # /repo has moved on since the sub-agent's worktree was created (fix commits): merge instead
+            rc, out = sh(["git", "apply", "--3way", os.path.join(dest, "patch.diff")], cwd=wt)
+            sh(["git", "reset", "-q"], cwd=wt)
+            meta["applied_by"] = "git apply --3way (the tree has fix commits the sub-agent's worktree did not have)"
+        if rc != 0:
             meta["apply"] = "FAILED: " + out[-300:]
             print(json.dumps(meta, indent=1))
             return 2
@@ -107,6 +112,9 @@ def main():
         sh(["git", "-C", "/repo", "worktree", "add", "-q", "--detach", wt2, "HEAD"])
         try:
             rc, out = sh(["git", "apply", os.path.join(dest, "patch.diff")], cwd=wt2)
+            if rc != 0:
+                rc, out = sh(["git", "apply", "--3way", os.path.join(dest, "patch.diff")], cwd=wt2)
+                sh(["git", "reset", "-q"], cwd=wt2)
             assert rc == 0, out
             for tier in ("quick", "thorough"):
                 t0 = time.time()
